@@ -46,10 +46,20 @@ impl UUID {
     pub fn new(locator: Locator, user_id: UserId) -> (r: UUID) ensures r == uuid_spec(locator, user_id) { unimplemented!() }
 }
 
-#[derive(Clone, PartialEq, Eq, Debug)]
+#[derive(PartialEq, Eq, Debug)]
 pub struct Transaction(pub u64);
+impl Clone for Transaction {
+    fn clone(&self) -> (r: Self) ensures r == *self { Transaction(self.0) }
+}
 pub uninterp spec fn txid_spec(tx: Transaction) -> Txid;
 impl Transaction {
     #[verifier::external_body]
     pub fn compute_txid(&self) -> (r: Txid) ensures r == txid_spec(*self) { unimplemented!() }
+}
+
+// locator = first 16 bytes of the txid (proved at byte level on the real `Locator::new` in the `wire` unit)
+pub uninterp spec fn locator_spec(txid: Txid) -> Locator;
+impl Locator {
+    #[verifier::external_body]
+    pub fn new(txid: Txid) -> (r: Locator) ensures r == locator_spec(txid) { unimplemented!() }
 }
